@@ -435,7 +435,9 @@ func runDyn(o *Opts) *Summary {
 				if len(cands) > 0 {
 					r := cands[w.rng.Intn(len(cands))]
 					kill := w.rng.Intn(2) == 0
-					m := vn.Restart(r, kill, gen, NodeOpts{Store: "badger", Cache: o.Cache, Dir: o.Dir, SyncLimit: 40, SuspendLimit: dynSuspendLimit})
+					// one restart in three has fast-sync enabled while no peer can serve it
+					m := vn.Restart(r, kill, gen, NodeOpts{Store: "badger", Cache: o.Cache, Dir: o.Dir, SyncLimit: 40, SuspendLimit: dynSuspendLimit,
+						FastSync: w.rng.Intn(3) == 0})
 					for i, q := range active {
 						if q == r {
 							active[i] = m
